@@ -82,6 +82,9 @@ type Oracle struct {
 	installing  []int // per node: InstallSnapshot RPCs being handled
 	userRestoring []int
 	isolatedSince []int64
+	lease *leaseState
+	iso   *isoState
+	conv  *convState
 }
 
 type leaderObsRec struct {
@@ -99,7 +102,8 @@ type snapSendRec struct {
 func newOracle(w *World, n int) *Oracle {
 	return &Oracle{w: w, entries: map[idxTerm]*EntryRec{}, termFirst: map[uint64]uint64{}, ghost: map[uint64]*Ghost{},
 		leaders: map[uint64]leaderRec{}, senders: map[uint64]int{}, votes: map[idxTerm]string{}, canon: map[uint64]FSMState{},
-		maxTermSeen: make([]uint64, n), snapSends: map[string]*snapSendRec{}, installing: make([]int, n), userRestoring: make([]int, n)}
+		maxTermSeen: make([]uint64, n), snapSends: map[string]*snapSendRec{}, installing: make([]int, n), userRestoring: make([]int, n),
+		lease: newLeaseState(n), iso: newIsoState(n), conv: &convState{}}
 }
 
 func decodeCfg(data string) (c raft.Configuration, ok bool) {
@@ -379,8 +383,8 @@ func (o *Oracle) onSnapDurable(inc *Inc, rec *SnapRec) {
 		// a user-supplied snapshot (Restore): opens a new epoch at its index
 		found := false
 		for _, e := range o.epochs {
-			if e.base == rec.Meta.Index {
-				found = true
+			if e.state.Epoch == st.Epoch {
+				found = true // the first durable snapshot of an epoch is the user restore's own
 			}
 		}
 		if !found {
@@ -632,6 +636,7 @@ func (o *Oracle) onFSMHandoff(f *SimFSM, e Ent) {
 	if e.Index > f.lastHandled {
 		f.lastHandled = e.Index
 	}
+	o.checkEpochIndex(f, e)
 	o.report(e, inc, "fsm")
 }
 
@@ -760,6 +765,7 @@ func (o *Oracle) onHandled(inc *Inc, m *Msg) {
 		if r, ok := m.Resp.(*raft.InstallSnapshotResponse); ok && r != nil && r.Success {
 			w.stats.probe("install_snapshot_success")
 		}
+		o.onInstallHandled(m)
 	case "RV":
 		r, _ := m.Resp.(*raft.RequestVoteResponse)
 		req := m.Req.(*raft.RequestVoteRequest)
@@ -778,6 +784,7 @@ func (o *Oracle) onHandled(inc *Inc, m *Msg) {
 		r, _ := m.Resp.(*raft.AppendEntriesResponse)
 		if r != nil && r.Success {
 			o.checkAppendSuccess(inc, m)
+			o.onAppendProgress(m)
 		}
 	}
 }
@@ -805,7 +812,7 @@ func (o *Oracle) checkAppendSuccess(inc *Inc, m *Msg) {
 	}
 }
 
-func (o *Oracle) onResponse(inc *Inc, m *Msg) {}
+func (o *Oracle) onResponse(inc *Inc, m *Msg) { o.noteContact(m.Src, m.Dst) }
 
 // ------------------------------------------------------------------ polling
 
@@ -868,6 +875,16 @@ func (o *Oracle) poll() {
 			w.violate("C11", "C11/last-index-not-on-disk", "%s: LastIndex()=%d but its durable log ends at %d and newest snapshot at %d", inc.tag, li, n.disk.last, n.disk.snapIndex()).
 				Facts["origin"] = o.originFacts(n)
 		}
+		if _, _, latest, lidx := r.VerifConfigurations(); lidx != inc.lastCfgIdx || len(inc.cfgHist) == 0 {
+			inc.lastCfgIdx = lidx
+			inc.cfgHist = append(inc.cfgHist, cfgHistRec{seq: w.sim.Seq(), idx: lidx, cfg: latest.Clone()})
+		}
+		o.checkIsolation(inc, term)
+		if state != raft.Leader {
+			o.lease.isLeader[n.idx] = false
+		} else {
+			o.checkLease(inc)
+		}
 		if state == raft.Leader {
 			if prev, ok := o.leaders[term]; ok {
 				if prev.node != n.idx {
@@ -913,6 +930,10 @@ func (o *Oracle) poll() {
 		}
 		inc.lastTerm, inc.lastState = term, state
 	}
+	o.checkHealOutcome()
+	if w.quiet && !w.finishing {
+		o.checkConvergence()
+	}
 	// trajectory hash
 	if w.sim.Steps%32 == 0 {
 		a := w.abstractState()
@@ -947,7 +968,7 @@ func (o *Oracle) onNewLeader(inc *Inc, term uint64) {
 
 // ------------------------------------------------------------------ misc hooks
 
-func (o *Oracle) onNotify(inc *Inc, v bool) {}
+func (o *Oracle) onNotify(inc *Inc, v bool) { o.checkNotify(inc, v) }
 
 func (o *Oracle) onCrash(inc *Inc) {
 	o.installing[inc.node.idx] = 0
